@@ -20,7 +20,7 @@ m = {
            "baseline_off_cmd": "cd /repo && go test -vet=off -count=1 -timeout 25m ./...",
            "source_commits": hooks_commits, "add_only": True},
  "engines": [{"name": "lean-proof+correspondence", "path": "check", "serves_properties": sorted(CLAIMS),
-   "kind_free_text": "Lean 4 theorems about an executable model (lean/FunProps, lean/FunProofs, lean/FunModel), tied to /repo by a differential run of the compiled model driver (lean/Driver.lean) against the real code (harness/) on generated cases, with an independent property oracle (checks/) used to find the failing input"}],
+   "kind_free_text": "Lean 4 theorems (lean/FunProps, helper lemmas lean/FunProofs) about executable models (lean/FunModel), tied to /repo on every run in two ways: translators (tools/go2lean, tools/lockfacts) regenerate code-level definitions (lean/FunGen) from the current source and tie theorems prove the hand-written models equal to / refined by them; and a differential run of the compiled model driver (lean/Driver.lean) against the real code (harness/, build tag verif) on generated cases, with an independent property oracle (checks/) that also searches for the failing input when a proof or a tie breaks"}],
  "checks": [
   {"property_id": p, "quick_cmd": f"./check {p} --tier quick", "thorough_cmd": f"./check {p} --tier thorough",
    "evidence_file": f"evidence/{p}.json", "replay_cmd_template": f"./check {p} --replay {{path}}",
